@@ -35,7 +35,8 @@ BANNERS = [
 GOOD = {"min", "new-3.0.10", "new-10.0.0"}
 
 HANDSHAKE = Profile(write_exc=("SerialException",), read_exc=("SerialException",),
-                    latency=(0, 1, 26), content=("err",), silent=True, read_window=2)
+                    latency=(0, 1, 26), content=("err",), silent=True, read_window=2,
+                    close_exc=True)
 
 
 class ProbeBoard(EBB3Board):
